@@ -25,6 +25,7 @@ type c17Case struct {
 	Variant int      `json:"variant"`
 	Form    string   `json:"form"` // direct | prefix | piped | lookup
 	Args    []c17Arg `json:"args"`
+	Slot    int      `json:"slot,omitempty"` // piped-slot: position of '_' among the written arguments
 	Expr    string   `json:"expr"`
 }
 
@@ -86,10 +87,14 @@ func (a c17Arg) expr() string {
 func genC17(t *rapid.T) c17Case {
 	c := c17Case{Variant: rapid.IntRange(0, 5).Draw(t, "variant")}
 	root := zooRoot(c.Variant)
-	c.Form = []string{"direct", "direct", "prefix", "piped", "lookup"}[rapid.IntRange(0, 4).Draw(t, "form")]
+	c.Form = []string{"direct", "direct", "prefix", "piped", "lookup", "piped-slot", "unhashable"}[rapid.IntRange(0, 6).Draw(t, "form")]
 	n := 1
 	if c.Form == "direct" || c.Form == "prefix" {
 		n = rapid.IntRange(1, 4).Draw(t, "nargs")
+	}
+	if c.Form == "piped-slot" {
+		n = rapid.IntRange(2, 4).Draw(t, "nslotargs") // the first one is piped into the slot
+		c.Slot = rapid.IntRange(0, n-1).Draw(t, "slotpos")
 	}
 	for i := 0; i < n; i++ {
 		c.Args = append(c.Args, genC17Arg(t, root))
@@ -124,6 +129,17 @@ func (c c17Case) template() string {
 		return "[{{ isset: " + strings.Join(parts, ", ") + " }}]"
 	case "piped":
 		return "[{{ " + parts[0] + " | isset }}]"
+	case "piped-slot":
+		written := append([]string{}, parts[1:]...)
+		pos := c.Slot
+		if pos > len(written) {
+			pos = len(written)
+		}
+		written = append(written[:pos], append([]string{"_"}, written[pos:]...)...)
+		return "[{{ " + parts[0] + " | isset(" + strings.Join(written, ", ") + ") }}]"
+	case "unhashable":
+		// a slice used as the key of a map[interface{}]T: a Go runtime error while resolving - still just "not set"
+		return "[{{ isset(root.MK[unhashableKey], " + strings.Join(parts, ", ") + ") }}]"
 	case "lookup":
 		return "{{ v, ok := " + parts[0] + " }}[{{ ok }}]"
 	}
@@ -153,8 +169,15 @@ func judgeC17(c c17Case) (v core.Verdict) {
 			}
 		}
 	}
+	if c.Form == "unhashable" {
+		want = false
+		if c.Variant == 4 {
+			v.Discard = "root-has-no-MK"
+			return
+		}
+	}
 	switch c.Form {
-	case "piped":
+	case "piped", "piped-slot":
 		// the piped expression is evaluated before isset sees it: only paths that evaluate without error
 		a := c.Args[0]
 		_, st, _ := zResolve(root, a.Steps)
@@ -192,6 +215,7 @@ func judgeC17(c c17Case) (v core.Verdict) {
 	s, _ := jetrun.NewSet(map[string]string{"/t.jet": tpl})
 	vars := jet.VarMap{}
 	vars.Set("root", root)
+	vars.Set("unhashableKey", []string{"a"})
 	for i := -2; i <= 80; i++ {
 		name := fmt.Sprintf("idx%d", i)
 		if i < 0 {
